@@ -33,6 +33,10 @@ structure Cfg where
   summonWaitsForUnmap : Bool := true
   /-- GracefulStop returns (and the process exits) only when no instance is mapped any more -/
   stopWaitsUntilClosed : Bool := true
+  /-- a request gives its vigil back exactly once; `false`: a delete that empties the swamp calls CeaseVigil before
+      Destroy and the handler's deferred CeaseVigil runs again — when Destroy returns at once because somebody else
+      is already destroying, the instance's counter has lost one vigil that belongs to another request -/
+  ceasesOnce : Bool := true
   deriving DecidableEq, Repr
 
 structure TSt where
@@ -59,6 +63,8 @@ structure St where
   touched : Bool
   /-- the close callback of an instance that is no longer the mapped one is still to come -/
   unmapPending : Bool := false
+  /-- the vigil counter is an integer: `holders.length - debt` (a surplus CeaseVigil is a debt) -/
+  debt : Nat := 0
 
 inductive Act where
   | summon (t : Nat)
@@ -86,6 +92,12 @@ def setT (f : Nat → TSt) (t : Nat) (v : TSt) : Nat → TSt := fun u => if u = 
 
 /-- the thread still talks to the mapped, not yet flushed instance -/
 def current (s : St) (t : Nat) : Bool := s.live && (s.th t).gen == s.gen && s.stage < 2
+
+/-- `HasActiveVigils()` is false: the counter is not positive -/
+def quiet (s : St) : Bool := decide (s.holders.length ≤ s.debt)
+
+theorem quiet_zero (s : St) (h : s.debt = 0) : quiet s = s.holders.isEmpty := by
+  unfold quiet; rw [h]; cases s.holders <;> simp
 
 def step (cfg : Cfg) (s : St) : Act → Option St
   | .summon t =>
@@ -121,7 +133,8 @@ def step (cfg : Cfg) (s : St) : Act → Option St
       let s1 := { s with mem := mem', acked := s.acked.filter (· != k) }
       if mem'.isEmpty then
         -- last record: CeaseVigil; Destroy()
-        if s.destroying then some { s1 with holders := s.holders.filter (· != t), th := setT s.th t { s.th t with pc := 3 } }
+        if s.destroying then some { s1 with holders := s.holders.filter (· != t), th := setT s.th t { s.th t with pc := 3 },
+                                            debt := if cfg.ceasesOnce then s.debt else s.debt + 1 }
         else some { s1 with holders := s.holders.filter (· != t), closing := true, destroying := true,
                             th := setT s.th t { s.th t with pc := 4 } }
       else some s1
@@ -131,7 +144,7 @@ def step (cfg : Cfg) (s : St) : Act → Option St
                   holders := if (s.th t).gen == s.gen && s.live then s.holders.filter (· != t) else s.holders }
   | .destroyFinish t =>
     if (s.th t).pc != 4 then none else
-    if !s.holders.isEmpty then none      -- WaitForActiveVigilsClosed
+    if !quiet s then none      -- WaitForActiveVigilsClosed
     else if cfg.destroyRechecks && !s.mem.isEmpty then
       -- not empty any more: close (flush + unmap) instead of deleting; `closing` stays set
       some { s with stage := 1, destroying := false, th := setT s.th t { s.th t with pc := 3 } }
@@ -140,7 +153,7 @@ def step (cfg : Cfg) (s : St) : Act → Option St
   | .tickRead => some { s with armed := true, touched := false }
   | .tickDecide =>
     if !s.armed then none else
-    if s.live && s.holders.isEmpty && !s.closing && (!cfg.atomicSummon || !s.touched) then
+    if s.live && quiet s && !s.closing && (!cfg.atomicSummon || !s.touched) then
       some { s with armed := false, closing := true, stage := 1 }
     else some { s with armed := false }
   | .closeFlush =>
